@@ -9,3 +9,5 @@ def run(ctx, rep):
     order.rule_A_immutable(mod, rep, ["sp_colorder", "get_perm_c", "sp_coletree", "sp_symetree", "qrnzcnt", "cholnzcnt", "p?gstrf"])
     from ..rules import misc
     misc.rule_min_identity(mod, rep, which=('firstcol',))
+    from ..rules import more
+    more.rule_colamd_args(mod, rep)
